@@ -17,6 +17,17 @@ SIM_NOTE = ("Trusted base: the simulated kernel / psutil.Popen fake "
             "EPERM, job-control stops. Search never proves absence.")
 
 TABLE = {
+ "C14": dict(
+  engine="E1-simworld", category="fault_enumeration", design_ref="DESIGN.md §4 C14",
+  technique="exhaustive enumeration of hook-outcome assignments (4^4 x 2^4 start-phase combinations x worker kind x numprocesses x request; stop-phase and signal-hook products) plus Hypothesis-sampled eight-hook combinations, against a reference table derived from the hook documentation",
+  text=("Every combination of {absent, true, false, raise} x ignore flag "
+        "over the four start-phase hooks (a superset of the stated 3^4 x "
+        "2^4) is run for obedient and stubborn workers, numprocesses 1-2 and "
+        "start / restart / daemon start; stop-phase and signal hooks are "
+        "enumerated likewise; status, kernel-live workers, signal log and "
+        "hook_success/hook_failure events are compared with the documented "
+        "table."),
+  note=SIM_NOTE + " Hooks are counting Python callables (documented callable form)."),
  "C11": dict(
   engine="E1-simworld", category="exploration", design_ref="DESIGN.md §4 C11",
   technique="metamorphic property testing: valid circusctl-shaped requests corrupted by generated mutations (dropped/ill-typed properties, unknown names/keys, bad values at every position, bad signals, case-duplicates, conflicts, owner mismatch, broken JSON); relation = a synchronously refused request leaves the protocol-visible snapshot and kernel logs unchanged",
